@@ -101,7 +101,7 @@ func init() {
 
 	core.Register(&core.Rule{
 		Name: "R-EXPAND",
-		Doc: "Template expansion reads what distinguishes templates: an expander is a function of the root package that takes a match-index slice ([]int) and at least two byte sequences and looks for '$' in one of them. Its family (the expander and the module functions it calls) must (1) reach the capture-name table (SubexpNames/SubexpIndex): for (?P<a>x)(?P<b>y) the templates $a and $b need different output and nothing else distinguishes them; (2) test for the closing brace '}' as well as the opening one: ${1}0 and ${10} differ only there; (3) accumulate a multi-digit group number (a multiplication by 10 or a strconv call inside the family): $1 and $10 name different groups. Necessary for C08 ($name, ${name}, multi-digit $10).",
+		Doc: "Template expansion reads what distinguishes templates: an expander is a function of the root package that takes a match-index slice ([]int) and at least two byte sequences and looks for '$' in one of them. Its family (the expander and the module functions it calls) must (1) reach the capture-name table (SubexpNames/SubexpIndex): for (?P<a>x)(?P<b>y) the templates $a and $b need different output and nothing else distinguishes them; (2) test for the closing brace '}' as well as the opening one: ${1}0 and ${10} differ only there; (3) accumulate a multi-digit group number (a multiplication by 10 or a strconv call inside the family): $1 and $10 name different groups; (4) classify the characters of a name with a rune classifier of package unicode (IsLetter/IsDigit, In, Is ...), as regexp does: a non-ASCII letter glued to a reference belongs to the name ($1\u00e8re is the unknown group '1\u00e8re', not $1 followed by text). Necessary for C08 ($name, ${name}, multi-digit $10).",
 		Min: 3, NeedSSA: true,
 		Run: func(p *core.Prog) *core.RuleResult {
 			res := &core.RuleResult{}
@@ -157,6 +157,7 @@ func init() {
 				fam := map[*ssa.Function]bool{fn: true}
 				work := []*ssa.Function{fn}
 				names, mul10 := false, false
+				runeClass := map[string]bool{}
 				for len(work) > 0 {
 					f := work[0]
 					work = work[1:]
@@ -178,6 +179,9 @@ func init() {
 							}
 							if cal.Name() == "SubexpNames" || cal.Name() == "SubexpIndex" {
 								names = true
+							}
+							if cal.Pkg != nil && cal.Pkg.Pkg.Path() == "unicode" && (strings.HasPrefix(cal.Name(), "Is") || cal.Name() == "In") {
+								runeClass["unicode"] = true // any classifier of package unicode: IsLetter/IsDigit, In(r, L, Nd), Is(...)
 							}
 							if cpk := ownPkg(cal); cpk != nil && cpk.Path() == core.ModPath && !fam[cal] && cal.Blocks != nil {
 								fam[cal] = true
@@ -211,6 +215,7 @@ func init() {
 				}
 				mk("reads the capture names", names, "the family reaches SubexpNames/SubexpIndex", "the expander never reads the capture-name table: $name and ${name} cannot be resolved, so templates that differ only in the name expand alike")
 				mk("tests for both braces", closeBrace && openBrace, "the family tests for '{' and '}'", "the expander does not test for both '{' and '}': ${name} is not parsed, so ${1}0 and ${10} expand alike or the braces are copied literally")
+				mk("name lexer classifies runes", runeClass["unicode"], "the family calls a rune classifier of package unicode", "the family does not classify the characters of a name with package unicode (IsLetter/IsDigit, In, Is): regexp ends a $name at the first rune that is neither a letter, a digit nor '_' in Unicode's sense, so $1\u00e8re names the (unknown) group \"1\u00e8re\" and expands to nothing; a byte-wise ASCII scan ends the name early and expands $1")
 				mk("accumulates multi-digit group numbers", mul10, "the family multiplies by 10 (or calls strconv) while reading the number", "the expander reads a single digit: $10 is taken for $1 followed by 0")
 			}
 			return res
